@@ -31,6 +31,8 @@ type Cfg struct {
 	Metrics metrics.Collector
 	Meta    types.MetaStore // override
 	Filer   types.SegmentFiler
+	// MetaCloseErr makes the simulated MetaStore's Close report this error.
+	MetaCloseErr error
 }
 
 const SimDir = "simdir"
@@ -43,7 +45,9 @@ func (c Cfg) Open() (*wal.WAL, error) {
 	dir := c.Dir
 	if c.FS != nil {
 		dir = SimDir
-		o = append(o, wal.WithSegmentFiler(segment.NewFiler(SimDir, c.FS)), wal.WithMetaStore(c.FS.Meta()))
+		meta := c.FS.Meta()
+		meta.CloseErr = c.MetaCloseErr
+		o = append(o, wal.WithSegmentFiler(segment.NewFiler(SimDir, c.FS)), wal.WithMetaStore(meta))
 	}
 	if c.Filer != nil {
 		o = append(o, wal.WithSegmentFiler(c.Filer))
